@@ -54,7 +54,9 @@ def parseTable (t : String) : Option (List Cmd) :=
     match e.splitOn ":" with
     | [p, tag, ops] => do
       let p ← unhex p; let tag ← parseInt tag
-      let ops ← (ops.splitOn "/").mapM parseOp
+      -- "null": an entry without a handler (callback == NULL).  The model runs it as a handler that does nothing; the marker
+      -- script `[.onFail false]` (a no-op) lets the driver leave out the handler-entered token, which nothing prints then
+      let ops ← if ops == "null" then some [SOp.onFail false] else (ops.splitOn "/").mapM parseOp
       some { pattern := p, tag := tag, script := ops }
     | _ => none)
 
@@ -114,7 +116,14 @@ def floatWidths (cmds : List Cmd) (evs : List Ev) : List Bool :=
     | _ :: es, ws, acc => go es ws acc
   go evs [] []
 
+/-- entry without a handler (see parseTable) -/
+def isNullCb (c : Cmd) : Bool := c.script == [SOp.onFail false]
+
 def renderEvents (cmds : List Cmd) (evs : List Ev) : List String :=
+  -- no handler-entered token for entries without a handler
+  let evs := evs.filter (fun e => match e with
+    | .handler t _ => !(cmds.any (fun c => c.tag == t && isNullCb c))
+    | _ => true)
   let ws := floatWidths cmds evs
   let rec go : List Ev → List Bool → List String → List String
     | [], _, acc => acc.reverse
@@ -208,11 +217,12 @@ def modelParse (cfg : String) (inp : List String) : Option (List String × List 
     let regs := c1.regs.regs
     -- context 1 is left as A left it (pending tail dropped); context 2 is fresh with A's registers and queue content only
     let (_, q) := drainQueue c1
+    let pendingA := c1.buf.take c1.position
     let c1 := { c1 with position := 0, events := [] }
     let c2 := seed fresh q regs
     let c2 := { c2 with cmdError := fresh.cmdError }
     let (d1, e1) ← runChunks c1 b
     let (d2, e2) ← runChunks c2 b
-    pure (e1 ++ finishStr d1 ++ ["||"] ++ e2 ++ finishStr d2, cmds)
+    pure (["K" ++ hexOfBytes pendingA] ++ e1 ++ finishStr d1 ++ ["||"] ++ e2 ++ finishStr d2, cmds)
 
 end ScpiVerif.Drv
